@@ -349,10 +349,15 @@ def _atom_text(atom):
         return "[#%s]" % atom["name"]
     if atom["arom"]:
         return atom["el"].lower()
+    weight = ""
+    if atom.get("w") is not None:
+        weight = (";%s" if atom.get("wpos", True) else ";w=%s") % atom["w"]
     if atom["charge"] == 1:
-        return "[%s+]" % atom["el"]
+        return "[%s+%s]" % (atom["el"], weight)
     if atom["charge"] == -1:
-        return "[%s-]" % atom["el"]
+        return "[%s-%s]" % (atom["el"], weight)
+    if weight:
+        return "[%s%s]" % (atom["el"], weight)
     return atom["el"]
 
 
@@ -497,12 +502,17 @@ def expected_hcounts(mol):
     return [mol.free(i) if mol.kind == "atomistic" else 0 for i in range(len(mol.atoms))]
 
 
-def build_item(rng, kind=None, size=None, n_leaves=None, mid_levels=None):
+def build_item(rng, kind=None, size=None, n_leaves=None, mid_levels=None, weights=False):
     """Generate one workload item (plain data, JSON-able)."""
     kind = kind or ("atomistic" if rng.random() < 0.7 else "coarse")
     size = size or rng.randint(3, 26)
     if kind == "atomistic":
         mol = gen_atomistic(rng, size)
+        if weights:
+            for atom in mol.atoms:
+                if not atom["arom"] and rng.random() < 0.45:
+                    atom["w"] = rng.choice([0.5, 0.25, 2.0, 3.0, 0.1, 1.5])
+                    atom["wpos"] = rng.random() < 0.7
     else:
         mol = gen_coarse(rng, size)
     n_leaves = n_leaves or rng.randint(1, min(8, max(1, len(mol.atoms) // 2 + 1)))
